@@ -136,7 +136,123 @@ def t_reorder_defs(tree: ast.Module) -> ast.Module:
     return tree
 
 
-TRANSFORMS = {"rename-locals": t_rename_locals, "unparse": t_unparse, "noop-prologue": t_noop_prologue, "reorder-defs": t_reorder_defs}
+class _FlipCompare(ast.NodeTransformer):
+    """a == b -> b == a ; a != b -> b != a ; a < b -> b > a ... (single comparisons without side effects)"""
+    FLIP = {ast.Eq: ast.Eq, ast.NotEq: ast.NotEq, ast.Lt: ast.Gt, ast.Gt: ast.Lt, ast.LtE: ast.GtE, ast.GtE: ast.LtE}
+
+    def visit_Compare(self, node: ast.Compare):
+        self.generic_visit(node)
+        if len(node.ops) == 1 and type(node.ops[0]) in self.FLIP and _pure(node.left) and _pure(node.comparators[0]):
+            return ast.copy_location(ast.Compare(left=node.comparators[0], ops=[self.FLIP[type(node.ops[0])]()], comparators=[node.left]), node)
+        return node
+
+
+def _pure(e: ast.AST) -> bool:
+    return not any(isinstance(n, (ast.Call, ast.Yield, ast.YieldFrom, ast.Await, ast.NamedExpr)) for n in ast.walk(e))
+
+
+def t_flip_compare(tree: ast.Module) -> ast.Module:
+    return _FlipCompare().visit(tree)
+
+
+class _SwapIf(ast.NodeTransformer):
+    """if c: A else: B  ->  if not c: B else: A   (only plain if/else, not elif chains)"""
+
+    def visit_If(self, node: ast.If, in_chain: bool = False):
+        # an if that is the `elif` of another if, or that has an elif itself, is part of a dispatch chain: left alone
+        has_elif = len(node.orelse) == 1 and isinstance(node.orelse[0], ast.If)
+        node.body = [self.visit(s) for s in node.body]
+        if has_elif:
+            node.orelse = [self.visit_If(node.orelse[0], True)]
+            return node
+        node.orelse = [self.visit(s) for s in node.orelse]
+        if node.orelse and not in_chain:
+            return ast.copy_location(ast.If(test=ast.UnaryOp(op=ast.Not(), operand=node.test), body=node.orelse, orelse=node.body), node)
+        return node
+
+
+def t_swap_if(tree: ast.Module) -> ast.Module:
+    return _SwapIf().visit(tree)
+
+
+def t_log_branches(tree: ast.Module) -> ast.Module:
+    """A side-effect free expression statement at the start of every loop body and if-branch."""
+    for n in ast.walk(tree):
+        if isinstance(n, (ast.For, ast.While, ast.If)) and n.body:
+            n.body.insert(0, ast.Expr(value=ast.Constant(value="trace")))
+            if isinstance(n, ast.If) and n.orelse and not (len(n.orelse) == 1 and isinstance(n.orelse[0], ast.If)):
+                n.orelse.insert(0, ast.Expr(value=ast.Constant(value="trace")))
+    return tree
+
+
+class _ExtractTemp(ast.NodeTransformer):
+    """`return f(g(x))` / `v = f(g(x))`: the innermost nested call argument is bound to a fresh local first."""
+
+    def __init__(self):
+        self.n = 0
+
+    def _extract(self, st, value):
+        if not isinstance(value, ast.Call):
+            return None
+        for i, a in enumerate(value.args):
+            if isinstance(a, ast.Call) and not any(isinstance(x, (ast.Yield, ast.YieldFrom, ast.Lambda, ast.ListComp, ast.GeneratorExp, ast.SetComp, ast.DictComp, ast.Starred, ast.IfExp, ast.BoolOp)) for x in ast.walk(value)):
+                # evaluation order: only safe when every earlier argument is a plain name/constant and the callee expr is pure
+                if all(isinstance(b, (ast.Name, ast.Constant, ast.Attribute)) for b in value.args[:i]) and _pure(value.func):
+                    self.n += 1
+                    name = f"tmp_x{self.n}"
+                    pre = ast.Assign(targets=[ast.Name(id=name, ctx=ast.Store())], value=a)
+                    value.args[i] = ast.Name(id=name, ctx=ast.Load())
+                    return pre
+        return None
+
+    def _block(self, body):
+        out = []
+        for st in body:
+            st = self.visit(st)
+            if isinstance(st, ast.Return) and st.value is not None:
+                pre = self._extract(st, st.value)
+                if pre is not None:
+                    out.append(ast.copy_location(pre, st))
+            elif isinstance(st, ast.Assign) and len(st.targets) == 1 and isinstance(st.targets[0], ast.Name):
+                pre = self._extract(st, st.value)
+                if pre is not None:
+                    out.append(ast.copy_location(pre, st))
+            out.append(st)
+        return out
+
+    def generic_visit(self, node):
+        for name in ("body", "orelse", "finalbody"):
+            b = getattr(node, name, None)
+            if isinstance(b, list) and b and isinstance(b[0], ast.stmt):
+                setattr(node, name, self._block(b))
+        if isinstance(node, ast.Try):
+            for h in node.handlers:
+                h.body = self._block(h.body)
+        return node
+
+    def visit_Lambda(self, node):
+        return node
+
+    def visit_ClassDef(self, node):
+        # class bodies: only methods
+        for st in node.body:
+            if isinstance(st, (ast.FunctionDef, ast.AsyncFunctionDef)):
+                self.visit(st)
+        return node
+
+    def visit_Module(self, node):
+        for st in node.body:
+            if isinstance(st, (ast.FunctionDef, ast.AsyncFunctionDef, ast.ClassDef)):
+                self.visit(st)
+        return node
+
+
+def t_extract_temp(tree: ast.Module) -> ast.Module:
+    return _ExtractTemp().visit(tree)
+
+
+TRANSFORMS = {"rename-locals": t_rename_locals, "unparse": t_unparse, "noop-prologue": t_noop_prologue, "reorder-defs": t_reorder_defs,
+              "flip-compare": t_flip_compare, "swap-if": t_swap_if, "log-branches": t_log_branches, "extract-temp": t_extract_temp}
 
 
 def build(transform: str, src_root: str) -> str:
